@@ -256,6 +256,9 @@ class Ctx:
         if unk_c:
             return self.error(rule, instance, f"code value left the recognised language (unknown sub-term): {sa[:400]}", site)
         new_ops = foreign_vocabulary(ct, rt)
+        # an index-list operation that the normal form has rewritten completely (x[flatnonzero(m)] = x[m],
+        # len(flatnonzero(m)) = count(m)) is not what the two sides differ in
+        new_ops = {o_ for o_ in new_ops if not (o_ == "nonzero1" and "nonzero1(" not in sa)}
         if new_ops and os.environ.get("VERIF_NO_FOREIGN"):
             new_ops = set()  # debugging aid: show the differing sites of an undecided comparison
         if new_ops:
